@@ -469,8 +469,12 @@ class Data(object):
                         temp = input.obs
                     elif field == verif.field.Fcst():
                         temp = input.fcst
-                    else:
+                    elif field == verif.field.Pit():
+                        temp = input.pit
+                    elif isinstance(field, verif.field.Other):
                         temp = input.other_score(field.name())
+                    else:
+                        verif.util.error("Cannot use '%s' as the observation field (-obs)" % field.name())
 
                     # Pre-aggregate observations
                     temp = self.preaggregate(temp, input)
